@@ -3503,6 +3503,8 @@ MasterConnection_hasUnconfirmedMessages(MasterConnection self)
 static void
 MasterConnection_deactivate(MasterConnection self)
 {
+    bool notify = false;
+
 #if (CONFIG_USE_SEMAPHORES == 1)
     Semaphore_wait(self->stateLock);
 #endif /* (CONFIG_USE_SEMAPHORES == 1) */
@@ -3510,11 +3512,7 @@ MasterConnection_deactivate(MasterConnection self)
     if (self->isUsed)
     {
         if (self->state == M_CON_STATE_STARTED)
-        {
-            if (self->slave->connectionEventHandler) {
-                 self->slave->connectionEventHandler(self->slave->connectionEventHandlerParameter, &(self->iMasterConnection), CS104_CON_EVENT_DEACTIVATED);
-            }
-        }
+            notify = true;
     }
 
     self->state = M_CON_STATE_UNCONFIRMED_STOPPED;
@@ -3522,20 +3520,26 @@ MasterConnection_deactivate(MasterConnection self)
 #if (CONFIG_USE_SEMAPHORES == 1)
     Semaphore_post(self->stateLock);
 #endif /* (CONFIG_USE_SEMAPHORES == 1) */
+
+    /* call the handler without holding the connection lock: it may call back into the API */
+    if (notify) {
+        if (self->slave->connectionEventHandler) {
+             self->slave->connectionEventHandler(self->slave->connectionEventHandlerParameter, &(self->iMasterConnection), CS104_CON_EVENT_DEACTIVATED);
+        }
+    }
 }
 
 static void
 MasterConnection_activate(MasterConnection self)
 {
+    bool notify = false;
+
 #if (CONFIG_USE_SEMAPHORES == 1)
     Semaphore_wait(self->stateLock);
 #endif /* (CONFIG_USE_SEMAPHORES == 1) */
 
-    if (self->state  != M_CON_STATE_STARTED) {
-        if (self->slave->connectionEventHandler) {
-             self->slave->connectionEventHandler(self->slave->connectionEventHandlerParameter, &(self->iMasterConnection), CS104_CON_EVENT_ACTIVATED);
-        }
-    }
+    if (self->state  != M_CON_STATE_STARTED)
+        notify = true;
 
     self->state = M_CON_STATE_STARTED;
 
@@ -3543,6 +3547,12 @@ MasterConnection_activate(MasterConnection self)
     Semaphore_post(self->stateLock);
 #endif /* (CONFIG_USE_SEMAPHORES == 1) */
 
+    /* call the handler without holding the connection lock: it may call back into the API */
+    if (notify) {
+        if (self->slave->connectionEventHandler) {
+             self->slave->connectionEventHandler(self->slave->connectionEventHandlerParameter, &(self->iMasterConnection), CS104_CON_EVENT_ACTIVATED);
+        }
+    }
 }
 
 static void
